@@ -345,3 +345,49 @@ def hessian_writer_contract(which=0):
     c.region_name = "Hessian layout writer #%d" % which
     c.loop_select = lambda node: LoopSpec(inv)
     return c
+
+
+# ------------------------------------------------------------------ the retry guard of convert_params (C07, C04)
+def _retry_guard_region(fnode):
+    """The first `if` of convert_params whose test reads Fisher_diag and whose body recomputes the Hessian with other step sizes (it contains a loop over
+    itertools.product(d_list, method_list)).  Only the TEST is the verified text: the region is `if <test>: __retry = True else: __retry = False` (body dropped)."""
+    for s in fnode.body:
+        if isinstance(s, ast.If) and "Fisher_diag" in ast.dump(s.test) and any(isinstance(n, ast.For) for n in ast.walk(s)) and \
+                any(isinstance(n, ast.Call) and ast.unparse(n.func).endswith("Hessian") for n in ast.walk(s)):
+            flag = lambda v: ast.Assign(targets=[ast.Name(id="__retry", ctx=ast.Store())], value=ast.Constant(value=v), lineno=s.lineno, col_offset=0)
+            node = ast.If(test=s.test, body=[flag(True)], orelse=[flag(False)])
+            ast.copy_location(node, s)
+            ast.fix_missing_locations(node)
+            return [node]
+    return None
+
+
+def retry_guard_contract():
+    """The Hessian is recomputed with the other step sizes WHENEVER the first one is unusable: some diagonal entry is not positive, is NaN or is infinite.
+    (A likelihood with a domain boundary next to the maximum gives NaN for every default step; without the retry the best function of a library loses its
+    code length and drops out of the ranking: C04.)  The converse is not demanded."""
+    NPAR = z3.Int("nparam")
+
+    def mk_F(eng, st):
+        v = eng.fresh(T.arr(T.float), "Fisher_diag", st)
+        st.heap[v.addr].len = NPAR
+        return v
+
+    def mk_any(eng, st):
+        return eng.fresh(T.arr(T.float), "Nsteps", st)
+
+    def ensures(S, a, res):
+        F = S.seq(a["Fisher_diag"])
+        k = z3.Int(fresh_name("k!sk"))
+        fk = as_float(F.get(k))
+        unusable = z3.Or(fk.is_nan(), fk.is_pinf(), fk.is_ninf(), z3.And(fk.is_fin(), fk.val <= 0))
+        r = S.st.env.get("__retry")
+        if r is None:
+            return [("the retry test was evaluated", z3.BoolVal(False))]
+        return [("an entry of the first Hessian's diagonal that is not positive, NaN or infinite triggers the retry with the other step sizes",
+                 z3.Implies(z3.And(0 <= k, k < NPAR, unusable), S.b(r)))]
+
+    c = Contract("convert_params", {"Fisher_diag": mk_F, "Nsteps": mk_any, "nparam": lambda e, s: VInt(NPAR)},
+                 requires=lambda S, a: [("nparam >= 1", NPAR >= 1)], ensures=ensures, region=_retry_guard_region, raises=lambda S, a, e: z3.BoolVal(False))
+    c.region_name = "retry guard"
+    return c
